@@ -75,6 +75,10 @@ def row(futures, flips=False, oversize=False, boundary=False, spaced=1, adds=Tru
     ))
 
 
-def script(n_steps, futures, tick, unit, cycle=False, **kw):
-    return st.fixed_dictionaries(dict(rows=st.lists(row(futures, **kw), min_size=1, max_size=n_steps),
-                                      tick=st.just(tick), unit=st.just(unit), cycle=st.just(bool(cycle))))
+def script(n_steps, futures, tick, unit, cycle=False, no_update=False, **kw):
+    d = dict(rows=st.lists(row(futures, **kw), min_size=1, max_size=n_steps),
+             tick=st.just(tick), unit=st.just(unit), cycle=st.just(bool(cycle)))
+    if no_update:
+        # one strategy in four has no update_position() of its own and applies its per-step actions in before()
+        d['no_update'] = st.sampled_from([False, False, False, True])
+    return st.fixed_dictionaries(d)
